@@ -275,8 +275,9 @@ class C15(Property):
         """Direct monitor: the empty-ring error path of the two users of the ring (white-box, the public
         constructors exit on a zero total weight): EVERY method of kv.Store / cache.Cache must fail with
         ErrNoRedisNode / the cluster's errNotFound, never panic or succeed."""
-        fails = self._hash_monitor(ctx)
-        for pkg in ("kv", "cache"):
+        import concurrent.futures
+
+        def whitebox(pkg):
             rel = "core/stores/%s/verif_c15_test.go" % pkg
             rc, out, res = vlib.go_test_overlay("./core/stores/%s" % pkg,
                                                 {rel: "%s/overlay/%s/verif_c15_test.go" % (vlib.HARNESS, pkg)},
@@ -285,8 +286,13 @@ class C15(Property):
                 raise ExecError("c15 empty-ring executor (%s) rc=%s: %s" % (pkg, rc, out[-1500:]))
             bad = [k for k in ("get", "set", "del", "incr", "all") if not res[0].get(k)] + (res[0].get("bad") or [])
             if bad:
-                fails.append({"what": "%s cluster over an empty ring: %s did not report the no-node error" % (pkg, bad),
-                              "replay": res[0]})
+                return [{"what": "%s cluster over an empty ring: %s did not report the no-node error" % (pkg, bad),
+                         "replay": res[0]}]
+            return []
+
+        with concurrent.futures.ThreadPoolExecutor(max_workers=3) as ex:      # two go test builds and the hash monitor
+            jobs = [ex.submit(self._hash_monitor, ctx), ex.submit(whitebox, "kv"), ex.submit(whitebox, "cache")]
+            fails = [f for j in jobs for f in j.result()]
         if ctx.tier == "thorough":
             fails += self._free_monitor(ctx)
         return fails
@@ -1606,15 +1612,27 @@ def _eval_sharded(prop, check_module, terms, preamble="", shard=400, timeout=900
     if prop == "C15":
         shard = max(2, (len(terms) + vlib.NCPU - 1) // vlib.NCPU)
         timeout = max(timeout, 3000)   # a loaded machine must not turn into an alarm
+        # the corpus (the expensive fixed cases) comes first: deal the cases out over the shards instead of
+        # cutting the list into contiguous pieces, and put the results back in order
+        k = max(1, -(-len(terms) // max(8, shard)))
+        order = sorted(range(len(terms)), key=lambda i: (i % k, i))
+        dealt = [terms[i] for i in order]
+
+        def back(rs):
+            res = [None] * len(terms)
+            for i, r in zip(order, rs):
+                res[i] = r
+            return res
+
         try:
-            return _orig_eval(prop, check_module, terms, preamble=preamble, shard=shard, timeout=timeout)
+            return back(_orig_eval(prop, check_module, dealt, preamble=preamble, shard=shard, timeout=timeout))
         except RuntimeError:
             # a coqc process that died half-way (killed on an overloaded machine: seen once, after five
             # results of its shard, no error message) is not a verdict: evaluate once more, in smaller
             # shards; an ill-formed term or a genuine error fails again and is raised
             import time
             time.sleep(3)
-            return _orig_eval(prop, check_module, terms, preamble=preamble, shard=max(2, shard // 2), timeout=timeout)
+            return back(_orig_eval(prop, check_module, dealt, preamble=preamble, shard=max(2, shard // 2), timeout=timeout))
     return _orig_eval(prop, check_module, terms, preamble=preamble, shard=shard, timeout=timeout)
 
 
